@@ -399,6 +399,8 @@ func (s *Netceptor) DialContext(ctx context.Context, node string, service string
 	}
 	close(okChan)
 	go func() {
+		// The dialer's ephemeral datagram socket lives as long as the QUIC connection: Close() only
+		// half-closes the stream (and closes doneChan), so doneChan must not end this goroutine.
 		select {
 		case <-qc.Context().Done():
 			_ = qs.Close()
@@ -406,8 +408,6 @@ func (s *Netceptor) DialContext(ctx context.Context, node string, service string
 		case <-s.context.Done():
 			_ = qs.Close()
 			_ = pc.Close()
-		case <-doneChan:
-			return
 		}
 	}()
 	conn := &Conn{
